@@ -59,6 +59,15 @@ THEOREMS = [
     'Nb.C06.source_canonical_slicers_eq',
     'Nb.C06.source_predict_shape_numpy',
     'Nb.C06.source_calc_slicedefs_eq',
+    # stage H (byte level: read_segments, item view + post-slice; histories of reads)
+    'Nb.C06.readSegments_reads_segments',
+    'Nb.C06.readSegments_state',
+    'Nb.C06.filesliceIO_eq_numpy',
+    'Nb.C06.filesliceIO_state',
+    'Nb.C06.read_history_independent',
+    'Nb.C06.read_history_eq_numpy',
+    'Nb.C06.readSegments_short',
+    'Nb.C06.filesliceIO_short',
 ]
 ASSUMPTIONS = [
     'harness/py2lean.py (syntactic Python->Lean translator, ~350 lines) and Basic/PyVal.lean (semantics of the '
@@ -69,6 +78,13 @@ ASSUMPTIONS = [
     '(optimize_read_slicers, slicers2segments, read_segments, canonical_slicers, predict_shape) are hand-modelled',
     'hand-written Lean model of nibabel/fileslice.py (Model/C06.lean), tied to the code by the '
     'differential correspondence run (result + I/O trace) on every case of this run',
+    'read_segments and the tail of fileslice (n_bytes, ndarray(sliced_shape, buffer)[post_slicers]) are hand-modelled '
+    'at the byte level over a file object with contents and position (Model/C06_IO.lean; file objects behave like '
+    'io.BytesIO / a binary file opened for reading; locks are C14); tied by the `hist` stream: the driver rebuilds '
+    'the file contents and runs the byte-level model on whole histories of reads',
+    'in the model a result is a value: that a returned array does not change after its read (no shared / reused '
+    'buffers behind results) is checked on the implementation only (`hist` stream: all results retained, compared '
+    'with NumPy at the end of the history, hash right-after vs at-the-end, cross-write independence)',
     'Basic/PySlice is a specification of CPython slice semantics, validated in this run against '
     'slice.indices / range on the `spec` stream',
     'NumPy basic indexing is taken as the reference semantics (oracle uses NumPy itself)',
@@ -80,6 +96,14 @@ RULE = ('streams: exhaustive 1-D slices for n<=5 (start/stop in [-n-2,n+2]|None,
         'PySlice spec stream; `nps` stream: the independent Lean NumPy spec (Lemmas/C06_NpSpec) vs real NumPy '
         'indexing (shape + element ids) on the random indices plus malformed tuples (two ellipses, too many '
         'indices, rank 0); `ps` stream: predict_shape model vs real predict_shape, oracle = NumPy shape. '
+        '`hist` stream: histories of 2-6 reads in one thread on 1-3 files (BytesIO / real files; contents differ per '
+        'file) through fileslice (with/without lock), calc_slicedefs+read_segments, ArrayProxy[idx], '
+        'np.asarray(proxy), proxy.get_unscaled() (mmap False/True/c/r, keep_file_open), per-read heuristics incl. '
+        'the shipped default on arrays whose strides straddle SKIP_THRESH, single- and multi-segment reads mixed, '
+        'reads > 64 KiB, repeated reads, failing reads (bad index, short file) in the middle; ALL results retained '
+        'and compared with NumPy right after the read AND at the end (after further unrelated reads, closing the '
+        'file objects, dropping the proxies, deleting the files), unchanged-bytes check, writing into a writable '
+        'result must not show through any other; model side = byte-level runHistory. '
         'A case is non-trivial when the index is not all-full-slices; distinct by '
         '(shape, index, order, itemsize, heuristic).')
 
@@ -253,6 +277,8 @@ def case_from_data(d):
                        d['off'], d['heur'], flen=d.get('flen'), stream=d.get('stream', 'main'))
     if d['op'] in ('fill', 'spec'):
         return mk_slice_case(d['op'], d['n'], d['s'])
+    if d['op'] == 'hist':
+        return hist_from_data(d)
     raise ValueError(d)
 
 
@@ -274,7 +300,7 @@ class TraceFile(io.BytesIO):
         return super().seek(o, w)
 
     def read(self, n=-1):
-        self.trace.append((self._pos, n))
+        self.trace.append((self.tell(), n))     # where the bytes really come from (seek or no seek before)
         return super().read(n)
 
 
@@ -292,9 +318,9 @@ def heuristic_of(name):
     raise ValueError(name)
 
 
-def make_store(shape, isz, off, flen):
+def make_store(shape, isz, off, flen, base=0):
     n = int(np.prod(shape, dtype=object)) if len(shape) else 1
-    body = b''.join(int(q % (256 ** isz)).to_bytes(isz, 'little') for q in range(n))
+    body = b''.join(int((q + base) % (256 ** isz)).to_bytes(isz, 'little') for q in range(n))
     buf = bytes((37 * i + 11) % 251 for i in range(off)) + body
     buf = buf + bytes((91 * i + 7) % 253 for i in range(max(0, flen - len(buf))))
     return buf[:flen] if flen < len(buf) else buf
@@ -314,6 +340,8 @@ def elems(arr, isz, order):
 def impl(case):
     d = case.data
     from nibabel import fileslice as fs
+    if d['op'] == 'hist':
+        return run_history(d, case)
     if d['op'] == 'spec':
         n, s = d['n'], slice(*d['s'])
         a, b, c = s.indices(n)
@@ -393,6 +421,8 @@ def impl(case):
 def oracle(case, out):
     d = case.data
     from nibabel import fileslice as fs
+    if d['op'] == 'hist':
+        return hist_oracle(case, out)
     if d['op'] == 'spec':
         return None
     if d['op'] == 'fill':
@@ -451,6 +481,12 @@ def signature(case, what):
     d = case.data
     if d['op'] == 'ps' and _ellipsis_overflow(d['shape'], [item_from_data(i) for i in d['idx']]):
         return 'predict_shape:ellipsis-too-many-indices'
+    if d['op'] == 'hist':
+        if 'at the end of the history' in what or 'changed after' in what:
+            return 'fileslice-history:result-changed-later'
+        if 'not independent' in what:
+            return 'fileslice-history:results-share-memory'
+        return 'fileslice-history:' + ('outside-extent' if 'outside' in what else 'result')
     if d['op'] in ('nps', 'ps', 'gen', 'pyop'):
         return 'npspec:' + d['op']
     if d['op'] != 'fs':
@@ -470,6 +506,25 @@ def signature(case, what):
 
 def shrink_candidates(case):
     d = case.data
+    if d['op'] == 'hist':
+        files = [dict(F, shape=tuple(F['shape'])) for F in d['files']]
+        steps = [{'f': S['f'], 'via': S['via'], 'heur': S['heur'],
+                  'idx': tuple(item_from_data(i) for i in S['idx'])} for S in d['steps']]
+        for i in range(len(steps)):
+            if len(steps) > 1:
+                yield mk_hist_case(files, steps[:i] + steps[i + 1:], d.get('stream', 'hist'))
+        used = sorted({S['f'] for S in steps})
+        if len(used) < len(files):          # drop files no read refers to
+            ren = {j: i for i, j in enumerate(used)}
+            yield mk_hist_case([files[j] for j in used], [dict(S, f=ren[S['f']]) for S in steps],
+                               d.get('stream', 'hist'))
+        for i, S in enumerate(steps):
+            if S['via'] not in ('fs', 'pxarr', 'pxun'):
+                yield mk_hist_case(files, steps[:i] + [dict(S, via='fs')] + steps[i + 1:], d.get('stream', 'hist'))
+        for j, F in enumerate(files):
+            if F['kind'] != 'bio':
+                yield mk_hist_case(files[:j] + [dict(F, kind='bio')] + files[j + 1:], steps, d.get('stream', 'hist'))
+        return
     if d['op'] != 'fs':
         return
     shape, idx = list(d['shape']), [item_from_data(i) for i in d['idx']]
@@ -487,6 +542,255 @@ def shrink_candidates(case):
         yield mk_case(shape, idx, d['order'], 1, d['off'], d['heur'])
     if d['off'] != 0:
         yield mk_case(shape, idx, d['order'], d['isz'], 0, d['heur'])
+
+
+# ------------------------------------------------------------------ histories of reads (`hist` stream)
+#
+# k >= 2 reads in ONE process/thread through fileslice / read_segments / ArrayProxy (several files, several
+# heuristics, single- and multi-segment reads mixed); every result is RETAINED and all are compared with NumPy
+# indexing at the END of the history - after further unrelated reads, after the file objects are closed and the
+# proxies dropped - as well as right after the read that produced them.  A result must never change afterwards
+# and writing into one (writable) result must not show through any other.
+
+HIST_VIAS = ('fs', 'fsl', 'rs', 'px', 'pxarr', 'pxun')
+
+
+def mk_hist_case(files, steps, stream='hist'):
+    steps = [dict(S, idx=()) if S['via'] in ('pxarr', 'pxun') else S for S in steps]
+    toks = [str(len(files))]
+    for F in files:
+        shp = ','.join(map(str, F['shape'])) if F['shape'] else '-'
+        toks += [F['order'], str(F['isz']), str(F['off']), str(F['flen']), str(F.get('base', 0)), shp]
+    for S in steps:
+        toks += [str(S['f']), S['heur'], fmt_idx(S['idx'])]
+    line = 'C06 hist ' + ' '.join(toks)
+    data = {'op': 'hist', 'stream': stream,
+            'files': [dict(F, shape=list(F['shape'])) for F in files],
+            'steps': [{'f': S['f'], 'via': S['via'], 'heur': S['heur'],
+                       'idx': [item_to_data(i) for i in S['idx']]} for S in steps]}
+    key = ('hist', line, tuple(S['via'] for S in steps), tuple((F['kind'], str(F.get('mmap')), str(F.get('kfo')))
+                                                                   for F in files))
+    return Case(line, data, key, stream)
+
+
+def hist_from_data(d):
+    files = [dict(F, shape=tuple(F['shape'])) for F in d['files']]
+    steps = [{'f': S['f'], 'via': S['via'], 'heur': S['heur'],
+              'idx': tuple(item_from_data(i) for i in S['idx'])} for S in d['steps']]
+    return mk_hist_case(files, steps, d.get('stream', 'hist'))
+
+
+def _res_line(res, isz, order):
+    res = np.asarray(res)
+    return f'ok {list(res.shape)} {elems(res, isz, order)}'.replace(', ', ',')
+
+
+def _realise(kept, dt, order):
+    """the ndarray a retained read stands for (`rs` steps keep the raw buffer read_segments returned)"""
+    if kept[0] == 'arr':
+        return kept[1]
+    _, buf, sliced_shape, post = kept
+    return np.ndarray(sliced_shape, dt, buffer=buf, order=order)[post]
+
+
+def run_history(d, case=None):
+    import shutil
+    import tempfile
+    import threading
+    from nibabel import fileslice as fs
+    from nibabel.arrayproxy import ArrayProxy
+    files, steps = d['files'], d['steps']
+    tmpdir = None
+    fobjs, proxies, stores = [], {}, []
+    for j, F in enumerate(files):
+        store = make_store(tuple(F['shape']), F['isz'], F['off'], F['flen'], F.get('base', 0))
+        stores.append(store)
+        if F['kind'] == 'tmp':
+            if tmpdir is None:
+                tmpdir = tempfile.mkdtemp(prefix='c06hist')
+            path = os.path.join(tmpdir, f'f{j}.dat')
+            with open(path, 'wb') as fh:
+                fh.write(store)
+            fobjs.append(open(path, 'rb'))
+        else:
+            fobjs.append(TraceFile(store))
+
+    def proxy_of(j):
+        if j not in proxies:
+            F = files[j]
+            spec = (tuple(F['shape']), dtype_of(F['isz']), F['off'])
+            if F['kind'] == 'tmp':
+                proxies[j] = ArrayProxy(fobjs[j].name, spec, order=F['order'], mmap=F.get('mmap', False),
+                                        keep_file_open=F.get('kfo', False))
+            else:
+                proxies[j] = ArrayProxy(fobjs[j], spec, order=F['order'])
+        return proxies[j]
+
+    orig = fs.calc_slicedefs
+    kept, imm, hashes, traces = [], [], [], []
+    tail_error = None
+    try:
+        for S in steps:
+            j = S['f']
+            F = files[j]
+            shape, isz, off, order = tuple(F['shape']), F['isz'], F['off'], F['order']
+            idx = tuple(item_from_data(i) for i in S['idx'])
+            dt = dtype_of(isz)
+            fobj = fobjs[j]
+            t0 = len(fobj.trace) if isinstance(fobj, TraceFile) else 0
+            h = None if S['heur'] == 'dflt' else heuristic_of(S['heur'])
+            if h is not None:
+                def patched(sliceobj, in_shape, itemsize, offset, order_, heuristic=None, _h=h):
+                    return orig(sliceobj, in_shape, itemsize, offset, order_, heuristic=_h)
+                fs.calc_slicedefs = patched
+            try:
+                via = S['via']
+                if via == 'fs':
+                    k = ('arr', fs.fileslice(fobj, idx, shape, dt, off, order))
+                elif via == 'fsl':
+                    k = ('arr', fs.fileslice(fobj, idx, shape, dt, off, order, lock=threading.RLock()))
+                elif via == 'rs':
+                    if fs.is_fancy(idx):
+                        raise ValueError('fancy')
+                    segs, sshape, post = fs.calc_slicedefs(idx, shape, isz, off, order)
+                    nb = isz
+                    for x in sshape:
+                        nb *= x
+                    k = ('buf', fs.read_segments(fobj, segs, nb), sshape, post)
+                elif via == 'px':
+                    k = ('arr', proxy_of(j)[idx])
+                elif via == 'pxarr':
+                    k = ('arr', np.asarray(proxy_of(j)))
+                elif via == 'pxun':
+                    k = ('arr', proxy_of(j).get_unscaled())
+                else:
+                    raise KeyError(via)
+                line = _res_line(_realise(k, dt, order), isz, order)
+            except (IndexError, ValueError, OSError):
+                k, line = None, 'ERR'
+            except Exception as e:          # noqa: BLE001 - an escaping exception is an observable
+                k, line = None, errname(e)
+            finally:
+                fs.calc_slicedefs = orig
+            kept.append(k)
+            imm.append(line)
+            hashes.append(None if k is None else np.asarray(_realise(k, dt, order)).tobytes())
+            if isinstance(fobj, TraceFile):
+                traces.append((j, list(fobj.trace[t0:])))
+        # ---- further, unrelated reads (multi-segment and single-segment), results dropped
+        other = np.arange(42, dtype='<u2').reshape(6, 7)
+        ofile = io.BytesIO(b'xyz' + other.tobytes(order='F'))
+
+        def skipping(sliceobj, in_shape, itemsize, offset, order_, heuristic=None):
+            return orig(sliceobj, in_shape, itemsize, offset, order_, heuristic=lambda s, n, st: None)
+        try:
+            for patch in (skipping, orig):
+                fs.calc_slicedefs = patch
+                for oidx in ((slice(1, None), slice(None, None, 2)), (3,), (Ellipsis, 2)):
+                    got = fs.fileslice(ofile, oidx, (6, 7), other.dtype, 3, 'F')
+                    if not np.array_equal(got, other[oidx]):
+                        tail_error = f'a further read ({oidx}) after the history returned wrong values'
+                for j, F in enumerate(files):
+                    shape = tuple(F['shape'])
+                    if len(shape) and F['flen'] >= F['off'] + F['isz'] * int(np.prod(shape, dtype=object)):
+                        fs.fileslice(fobjs[j], (slice(None, None, 2),), shape, dtype_of(F['isz']), F['off'], F['order'])
+        except Exception as e:      # noqa: BLE001
+            tail_error = f'a further read after the history raised {type(e).__name__}: {e}'
+    finally:
+        fs.calc_slicedefs = orig
+        # ---- the files go away: close every file object, drop the proxies, delete the files
+        proxies.clear()
+        for f in fobjs:
+            try:
+                f.close()
+            except Exception:       # noqa: BLE001
+                pass
+        if tmpdir is not None:
+            shutil.rmtree(tmpdir, ignore_errors=True)
+    # ---- all results realised again NOW
+    final, changed = [], []
+    arrs = []
+    for i, (S, k) in enumerate(zip(steps, kept)):
+        F = files[S['f']]
+        if k is None:
+            final.append(imm[i])
+            arrs.append(None)
+            continue
+        a = _realise(k, dtype_of(F['isz']), F['order'])
+        arrs.append(np.asarray(a))
+        final.append(_res_line(a, F['isz'], F['order']))
+        if np.asarray(a).tobytes() != hashes[i]:
+            changed.append(i)
+    # ---- independence: writing into one writable result shows through no other result
+    cross = []
+    for i, a in enumerate(arrs):
+        if a is None or a.size == 0 or not a.flags.writeable:
+            continue
+        saved = a.copy()
+        try:
+            if a.dtype.kind == 'V':
+                a[...] = np.frombuffer(b'\xa5' * a.dtype.itemsize, dtype=a.dtype)[0]
+            else:
+                a[...] = ~saved
+        except Exception as e:       # noqa: BLE001
+            cross.append(f'result {i} claims to be writable but writing raised {type(e).__name__}')
+            continue
+        for j2, b in enumerate(arrs):
+            if j2 != i and b is not None:
+                F2 = files[steps[j2]['f']]
+                if _res_line(b, F2['isz'], F2['order']) != final[j2]:
+                    cross.append(f'writing into result {i} changed result {j2}')
+        a[...] = saved
+    if case is not None:
+        case.extra = {'imm': imm, 'changed': changed, 'cross': cross, 'traces': traces, 'tail_error': tail_error}
+    return ' | '.join(final)
+
+
+def hist_oracle(case, out):
+    d = case.data
+    files, steps = d['files'], d['steps']
+    ex = case.extra or {}
+    finals = out.split(' | ')
+    if len(finals) != len(steps):
+        return f'history of {len(steps)} reads produced {out[:120]}'
+    imm = ex.get('imm', finals)
+    for i, S in enumerate(steps):
+        F = files[S['f']]
+        shape, isz, off, order = tuple(F['shape']), F['isz'], F['off'], F['order']
+        idx = tuple(item_from_data(x) for x in S['idx']) if S['via'] not in ('pxarr', 'pxun') else ()
+        n = int(np.prod(shape, dtype=object)) if len(shape) else 1
+        full = np.arange(n, dtype=object).reshape(shape, order=order)
+        desc = f'read #{i} ({S["via"]} heur={S["heur"]}) file#{S["f"]} shape={shape} idx={idx} order={order} isz={isz}'
+        try:
+            want = np.asarray(full[idx], dtype=object)
+        except IndexError:
+            want = None
+        for when, got in (('right after the read', imm[i]), ('at the end of the history (after the later reads)', finals[i])):
+            if want is None:
+                if not got.startswith('ERR'):
+                    return f'NumPy raises IndexError but {desc} returned {got[:100]}'
+                continue
+            if got.startswith('ERR'):
+                if F['flen'] < off + n * isz:
+                    continue
+                return f'{desc} raised ({got[:40]}) where NumPy indexing succeeds'
+            base = F.get('base', 0)      # file contents: element q holds the number q + base
+            exp = f'ok {list(want.shape)} {[(int(x) + base) % (256 ** isz) for x in want.ravel(order=order)]}'.replace(', ', ',')
+            if got != exp:
+                return f'{desc}: result != NumPy indexing {when}: got {got[:140]} want {exp[:140]}'
+    if ex.get('tail_error'):
+        return ex['tail_error'] + ' (valid read of a long enough file)'
+    if ex.get('changed'):
+        return f'results {ex["changed"]} changed after the read that produced them'
+    if ex.get('cross'):
+        return 'results are not independent: ' + '; '.join(ex['cross'][:3])
+    for j, tr in ex.get('traces', []):
+        F = files[j]
+        n = int(np.prod(tuple(F['shape']), dtype=object)) if len(F['shape']) else 1
+        for o, ln in tr:
+            if ln > 0 and (o < F['off'] or o + ln > F['off'] + n * F['isz']):
+                return f'read outside the array extent: seek {o} read {ln}, extent [{F["off"]},{F["off"] + n * F["isz"]}) file#{j}'
+    return None
 
 
 # ------------------------------------------------------------------ generators
@@ -540,6 +844,115 @@ def rand_heur(rng, shape, isz):
         strides.append(strides[-1] * max(n, 1))
     k = rng.choice(strides) * rng.choice([1, 1, 2, 3]) + rng.choice([-1, 0, 0, 1])
     return 'thr:%d' % max(k, 0) if rng.random() < 0.85 else 'thr:256'
+
+
+def dense_index(rng, shape):
+    """an index under which most axes keep several elements (few empty / degenerate results)"""
+    items = []
+    for n in shape:
+        r = rng.random()
+        if r < 0.35 and n > 0:
+            items.append(rng.randrange(-n, n))
+        elif r < 0.55:
+            items.append(slice(None))
+        else:
+            a = rng.randrange(0, max(1, (n + 1) // 2))
+            b = rng.choice([None, None, rng.randrange(min(a + 1, n), n + 1) if n else None])
+            st = rng.choice([1, 1, 2, 3, -1, -2])
+            items.append(slice(a, b, st) if st > 0 else slice(b if b is None else b - 1, a - 1 if a > 0 else None, st))
+    k = rng.randrange(0, len(items) + 1) if rng.random() < 0.25 else len(items)
+    items = items[:k]
+    if rng.random() < 0.2:
+        drop = rng.randrange(0, len(items) + 1)         # an Ellipsis instead of a run of leading/trailing items
+        items = ([Ellipsis] + items[len(items) - drop:]) if rng.random() < 0.5 and k == len(shape) else \
+            (items[:drop] + [Ellipsis])
+    for _ in range(rng.choice([0, 0, 0, 1])):
+        items.insert(rng.randrange(0, len(items) + 1), None)
+    return tuple(items)
+
+
+def rand_hist_file(rng, profile):
+    if profile == 'small':
+        nd = rng.choice([1, 2, 2, 3, 3, 4])
+        shape = tuple(rng.choice([2, 3, 4, 5]) if rng.random() < 0.88 else rng.choice([0, 1, 7, 16]) for _ in range(nd))
+        isz = rng.choice([1, 2, 3, 8, 16])
+    elif profile == 'medium':       # strides straddle the shipped SKIP_THRESH: default heuristic mixes full/skip
+        nd = rng.choice([2, 3, 3])
+        shape = (rng.choice([8, 12, 14, 20, 33]),) + tuple(rng.choice([3, 5, 8]) for _ in range(nd - 1))
+        while int(np.prod(shape)) > 900:
+            shape = shape[:-1]
+        isz = rng.choice([2, 8, 8, 16])
+    else:                           # 'big': reads of more than 64 KiB assembled from several segments
+        shape = (rng.choice([519, 530, 600]), rng.choice([9, 10]))
+        isz = 16
+    order = rng.choice('CF')
+    if profile == 'big':
+        order = 'F'
+    if order == 'C':
+        shape = shape[::-1]         # the dimensions above are listed fastest axis first
+    off = rng.choice([0, 1, 7, 352])
+    n = int(np.prod(shape, dtype=object)) * isz
+    extra = rng.choice([0, 0, 3, 17])
+    if profile != 'big' and n > 1 and rng.random() < 0.04:
+        extra = -rng.randrange(1, n)                 # short file: some reads must refuse, the others still work
+    F = {'shape': shape, 'order': order, 'isz': isz, 'off': off, 'flen': max(0, off + n + extra), 'kind': 'bio',
+         'base': rng.choice([0, 0, 1, 100, 257, 70001])}     # files of one geometry differ in contents
+    if rng.random() < 0.15:
+        F.update(kind='tmp', mmap=rng.choice([False, False, True, 'c', 'r']), kfo=rng.choice([False, True]))
+    return F
+
+
+def rand_hist(rng, profile):
+    files = [rand_hist_file(rng, profile) for _ in range(rng.choice([1, 1, 2, 3]) if profile != 'big' else 1)]
+    if profile == 'big':
+        files.append(rand_hist_file(rng, 'medium'))
+    if rng.random() < 0.3:              # a sibling: same geometry (same planned segments), other contents / other kind
+        sib = dict(files[0], base=files[0]['base'] + rng.choice([1, 5, 300]))
+        if rng.random() < 0.3:
+            sib.update(rand_hist_file(rng, profile), shape=sib['shape'], order=sib['order'], isz=sib['isz'],
+                       off=sib['off'], flen=sib['flen'], base=sib['base'])
+        files.append(sib)
+    k = rng.choice([2, 2, 3, 3, 4, 5, 6])
+    common_heur = rng.random() < 0.5
+    many_segs = rng.random() < 0.5          # heuristics under which nearly every partial read has several segments
+    steps = []
+    for _ in range(k):
+        j = rng.randrange(len(files))
+        if steps and rng.random() < 0.35:
+            j = steps[-1]['f']                            # consecutive reads of the same file / proxy
+        F = files[j]
+        shape = F['shape']
+        via = rng.choice(['fs', 'fs', 'fs', 'fsl', 'rs', 'rs', 'px', 'px', 'px', 'pxarr', 'pxun'])
+        if steps and files[steps[-1]['f']]['shape'] == shape and rng.random() < 0.3:
+            idx = steps[-1]['idx']                        # the same read twice (of this file or of its sibling)
+        else:
+            idx = rand_index(rng, shape, bad_int=rng.random() < 0.04) if rng.random() < 0.35 else \
+                dense_index(rng, shape)
+        if profile == 'small':
+            heur = rand_heur(rng, shape, F['isz']) if not many_segs else rng.choice(['skip', 'skip', 'contig', 'thr:0'])
+        elif profile == 'medium':
+            heur = rng.choice(['dflt', 'dflt', 'dflt', 'skip', 'contig', rand_heur(rng, shape, F['isz'])])
+        else:
+            heur = rng.choice(['skip', 'contig', 'dflt'])
+            if j == 0 and rng.random() < 0.7:             # most of a big array, in column pieces
+                idx = (slice(rng.choice([1, 2]), None), slice(rng.choice([0, 1]), None))
+                heur = 'skip'
+        if common_heur and steps:
+            heur = steps[0]['heur'] if not steps[0]['heur'].startswith('thr:') or steps[0]['f'] == j else heur
+        steps.append({'f': j, 'via': via, 'heur': heur, 'idx': idx})
+    return mk_hist_case(files, steps)
+
+
+def hist_cases(rng, tier):
+    out = []
+    nsmall, nmed, nbig = {'quick': (700, 260, 3), 'thorough': (9000, 3000, 12), 'search': (1500, 500, 3)}[tier]
+    for _ in range(nsmall):
+        out.append(rand_hist(rng, 'small'))
+    for _ in range(nmed):
+        out.append(rand_hist(rng, 'medium'))
+    for _ in range(nbig):
+        out.append(rand_hist(rng, 'big'))
+    return out
 
 
 def cases(rng, tier):
@@ -708,6 +1121,8 @@ def cases(rng, tier):
             items.insert(rng.randrange(0, len(items) + 1), None)
         out.append(mk_np_case('nps', shape, tuple(items), rng.choice('CF')))
         out.append(mk_np_case('ps', shape, tuple(items)))
+    # ---- histories: k >= 2 reads in one thread, all results retained and compared at the end
+    out.extend(hist_cases(rng, tier))
     # ---- short files (reader must refuse, never fabricate)
     for _ in range({'quick': 300, 'thorough': 3000, 'search': 300}[tier]):
         nd = rng.choice([1, 2, 3])
